@@ -40,7 +40,9 @@ def run_check(pid: str, tier: str, seed: int, root: str = None, only: str = None
 
 def main():
     ap = argparse.ArgumentParser()
-    ap.add_argument("pid")
+    ap.add_argument("pid", nargs="?")
+    ap.add_argument("--self-check", action="store_true")
+    ap.add_argument("--replay", default=None)
     ap.add_argument("--tier", default=os.environ.get("VERIF_TIER", "quick"), choices=["quick", "thorough"])
     ap.add_argument("--only", default=None)
     ap.add_argument("--repo", default=None)
@@ -48,6 +50,19 @@ def main():
     ap.add_argument("--no-selftest", action="store_true")
     ap.add_argument("--quiet", action="store_true")
     a = ap.parse_args()
+    if a.self_check:
+        repo = Repo(a.repo)
+        import glob
+        for f in sorted(glob.glob(os.path.join(os.path.dirname(os.path.abspath(__file__)), "rules", "c*.py"))):
+            importlib.import_module("rules." + os.path.basename(f)[:-3])
+        print(f"self-check ok: {len(repo.modules)} modules parsed, rules importable")
+        sys.exit(0)
+    if not a.pid:
+        ap.error("property id required")
+    if a.replay:
+        import json
+        a.only = json.load(open(a.replay))["key"]
+        a.no_evidence = True
     try:
         seed = int(os.environ.get("VERIF_SEED", "0"))
     except ValueError:
